@@ -426,16 +426,18 @@ def run(ctx, use_model=True):
     res = core.Result()
     rng = ctx.sub_rng('grouped')
     lines, pend = [], []
-    corpus = [dict(specs=[dict(cls='fermion', cons='N', filling=[1, 2]), dict(cls='boson', nmax=2, cons='N', filling=[0, 1])],
-                   policy='drop', prep=None, labels=None)]
-    for case in corpus + [gen_group(rng) for _ in range(40 if ctx.quick else 600)]:
+    for case in [gen_group(rng) for _ in range(40 if ctx.quick else 600)]:
         check_group(res, case, lines, pend)
-    scc_corpus = [dict(specs=[dict(cls='fermion', cons='N', filling=[1, 2]), dict(cls='boson', nmax=2, cons='N', filling=[0, 1])],
-                       policy='same', sort=False, new_mod=None)]
-    for case in scc_corpus + [gen_scc(rng) for _ in range(40 if ctx.quick else 600)]:
+    for case in [gen_scc(rng) for _ in range(40 if ctx.quick else 600)]:
         check_scc(res, case, lines, pend)
     for _ in range(6 if ctx.quick else 60):
         check_grouped_chain(res, rng, ctx.quick)
+    finish(res, lines, pend, use_model)
+    return res
+
+
+def finish(res, lines, pend, use_model=True):
+    """run the model on the collected lines and diff"""
     if use_model and lines:
         answers = core.run_driver('C12', lines)
         for (what, case, info), ans in zip(pend, answers):
@@ -446,7 +448,6 @@ def run(ctx, use_model=True):
             d = diff_grouped(ans, info) if what == 'grouped' else diff_scc(ans, info)
             if d and info.get('ok', True):
                 res.fail('correspondence', f'{what}.model-vs-impl', '; '.join(d)[:1200], case)
-    return res
 
 
 def search(ctx):
